@@ -795,7 +795,7 @@ func runC08(it *Item, tier string, st *Stats) ([]Violation, uint64) {
 				st.Samples = append(st.Samples, map[string]any{"kind": "parser reuse history", "cfg": cfg.String(), "history_ops": histOps(hist), "then_parse": kit.Clip(string(data), 120)})
 			}
 		}
-		for i := 0; i < nhist; i++ {
+		for i := 0; i < 3*nhist; i++ { // printer histories are cheap
 			pc := genPrCfg(r)
 			var hist []HistStep
 			for j := r.Range(1, 4); j > 0; j-- {
